@@ -260,7 +260,21 @@ func cmdCheck(prop, tier string) int {
 			cmd.Env = append(os.Environ(), "GOMAXPROCS=2")
 			cmd.Stderr = os.Stderr
 			cmd.Stdout = os.Stderr
-			errs[w] = cmd.Run()
+			if err := cmd.Start(); err != nil {
+				errs[w] = err
+				return
+			}
+			// watchdog: a worker that makes no progress is machinery trouble (exit 2), never a verdict
+			limit := 20 * time.Minute
+			if tier == "thorough" {
+				limit = 6 * time.Hour
+			}
+			timer := time.AfterFunc(limit, func() {
+				fmt.Fprintf(os.Stderr, "check: worker %d exceeded the watchdog of %v, killing it\n", w, limit)
+				_ = cmd.Process.Kill()
+			})
+			errs[w] = cmd.Wait()
+			timer.Stop()
 		}(w)
 	}
 	wg.Wait()
